@@ -36,10 +36,23 @@ type Scanner struct {
 	yields map[string]int
 	walk   bool // fetch the definition of the scanned component (as the built-in scanners do) and read the names registered so far
 	named  int64
+	parts  bool // register a part (an inner component of a type nobody registered as a singleton) for every scanned component
+	mu     sync.Mutex
+	hits   int // written under mu by the callbacks; read WITHOUT it once Run has returned (Run joins the scanning phase)
 }
 
 func (s *Scanner) Naming() string { return s.name }
 func (s *Scanner) PostProcessDefinitionRegistry(registry container.DefinitionRegistry, component any, name string) error {
+	defer func() {
+		s.mu.Lock()
+		s.hits++
+		s.mu.Unlock()
+	}()
+	if s.parts && !strings.Contains(name, "/part-of-") {
+		// a fresh struct type per component: the registry meets these types for the first time here, on the scan goroutines
+		pt := reflect.StructOf([]reflect.StructField{{Name: "PartOf" + sanitize(name), Type: reflect.TypeOf(0)}})
+		registry.GetMetaOrRegister(s.name+"/part-of-"+name, reflect.New(pt).Interface())
+	}
 	if s.walk {
 		if m := registry.GetMetaOrRegister(name, component); m.Name() != name {
 			return fmt.Errorf("definition of %s is registered as %s", name, m.Name())
@@ -94,6 +107,7 @@ func TestRaces(t *testing.T) {
 		for i := 0; i < ns; i++ {
 			sc := &Scanner{name: fmt.Sprintf("scanner-%d", i), reject: map[string]bool{}, yields: map[string]int{}}
 			sc.walk = rapid.Bool().Draw(t, "walk")
+			sc.parts = rapid.IntRange(0, 2).Draw(t, "parts") == 0
 			nr := rapid.IntRange(0, 3).Draw(t, "nreject")
 			for j := 0; j < nr; j++ {
 				sc.reject[rapid.SampledFrom(names).Draw(t, "reject")] = true
@@ -139,6 +153,26 @@ func TestRaces(t *testing.T) {
 					t.Fatalf("C20: closer %s called %d times", c.name, c.n)
 				}
 			}
+		}
+		// Run has returned - successfully or with the scanners' rejections: the scanning phase is over, nothing of it
+		// may still be running (the read below is deliberately unsynchronised)
+		total := 0
+		for _, c := range comps {
+			if sc, ok := c.(*Scanner); ok {
+				total += sc.hits
+			}
+		}
+		for i := 0; i < 30; i++ {
+			runtime.Gosched()
+		}
+		for _, c := range comps {
+			if sc, ok := c.(*Scanner); ok {
+				total -= sc.hits
+			}
+		}
+		if total != 0 && out.Panic == nil {
+			runtime.GOMAXPROCS(old)
+			t.Fatalf("C20: definition scanners were still being called after App.Run had returned (%v)", out)
 		}
 		runtime.GOMAXPROCS(old)
 		if out.Panic != nil {
@@ -762,4 +796,16 @@ func waitAll(t *rapid.T, wg *sync.WaitGroup, rec *opRec) {
 		kit.DumpReplay("c20-blocked-operation", map[string]any{"completed_operations": d})
 		t.Fatalf("C20: concurrent operations on the utility did not all return within %v (%d completed: %s): an operation is blocked for good", hangLimit, n, d)
 	}
+}
+
+func sanitize(n string) string {
+	var sb strings.Builder
+	for _, r := range n {
+		if (r >= 'a' && r <= 'z') || (r >= 'A' && r <= 'Z') || (r >= '0' && r <= '9') {
+			sb.WriteRune(r)
+		} else {
+			sb.WriteByte('_')
+		}
+	}
+	return sb.String()
 }
